@@ -1,7 +1,7 @@
 (** C06 — property theorems only.  Each is closed by [exact <lemma>] and audited with
     [Print Assumptions]. *)
 From Coq Require Import ZArith NArith List Bool.
-From PV Require Import Common.RustInt Gen.ShardingGen Shard.PgSpec Shard.HashProofs Shard.Paths Shard.PathsProofs Shard.Sha1 Shard.Sha1Proofs.
+From PV Require Import Common.RustInt Gen.ShardingGen Shard.PgSpec Shard.HashProofs Shard.Paths Shard.PathsProofs Shard.Sha1 Shard.Sha1Proofs Shard.Spellings.
 Import ListNotations.
 
 (** The shard computed by the code generated from src/sharding.rs equals PostgreSQL's
@@ -42,6 +42,45 @@ Print Assumptions c06_bin2_sign_extends.
 Theorem c06_text_key_in_range : forall s k, parse_i64 s = Some k -> in_i64 k.
 Proof. exact parse_in_range. Qed.
 Print Assumptions c06_text_key_in_range.
+
+(** Non-canonical spellings.  Leading zeros never change the key, by any text path. *)
+Theorem c06_leading_zeros : forall (m : nat) (k : Z), (0 <= k)%Z -> in_i64 k ->
+  let s := repeat 48%N m ++ dec k in
+  path_set_key s = Key k /\ path_comment s = Key k /\ path_literal s = Key k /\ path_bind_text s = Key k.
+Proof. exact leading_zeros. Qed.
+Print Assumptions c06_leading_zeros.
+
+(** An explicit plus sign is understood by the text Bind path only; the digit-only captures
+    deliver no key for it (never a wrong key). *)
+Theorem c06_plus_sign : forall k : Z, (0 <= k)%Z -> in_i64 k ->
+  path_bind_text (43%N :: dec k) = Key k /\ path_set_key (43%N :: dec k) = NoKey /\ path_comment (43%N :: dec k) = NoKey.
+Proof. exact plus_sign. Qed.
+Print Assumptions c06_plus_sign.
+
+(** On EVERY byte string the text paths are consistent: when a digit-only path delivers a key,
+    all text paths deliver that key, and it is not negative. *)
+Theorem c06_text_paths_consistent : forall s k,
+  (path_set_key s = Key k \/ path_comment s = Key k \/ path_literal s = Key k) ->
+  path_set_key s = Key k /\ path_comment s = Key k /\ path_literal s = Key k /\ path_bind_text s = Key k /\ (0 <= k)%Z.
+Proof. exact text_paths_consistent. Qed.
+Print Assumptions c06_text_paths_consistent.
+
+Theorem c06_text_paths_no_disagreement : forall s k1 k2,
+  path_bind_text s = Key k1 -> (path_set_key s = Key k2 \/ path_comment s = Key k2) -> k1 = k2.
+Proof. exact text_paths_no_disagreement. Qed.
+Print Assumptions c06_text_paths_no_disagreement.
+
+(** A digit string denoting a value outside i64 is refused (SET SHARDING KEY) or ignored (other
+    paths); it is never wrapped around to another key. *)
+Theorem c06_out_of_range_never_wraps : forall s v, all_digits s = true -> digits_val 0 s = Some v -> ~ in_i64 v ->
+  path_set_key s = Rejected /\ path_comment s = NoKey /\ path_bind_text s = NoKey.
+Proof. exact out_of_range_digits. Qed.
+Print Assumptions c06_out_of_range_never_wraps.
+
+Example c06_spellings_nonvacuous :
+  path_set_key [48; 48; 53]%N = Key 5%Z /\ path_bind_text [43; 53]%N = Key 5%Z /\
+  path_set_key [57;50;50;51;51;55;50;48;51;54;56;53;52;55;55;53;56;48;56]%N = Rejected.
+Proof. vm_compute. repeat split. Qed.
 
 (** A key bound at any position of a multi-parameter Bind is found, whatever the other
     parameters contain (NULLs, text, binary of any length). *)
